@@ -1,10 +1,10 @@
 package main
 
 import (
-	"strings"
-	"fmt"
 	"encoding/base64"
+	"fmt"
 	"go/types"
+	"strings"
 
 	"golang.org/x/tools/go/ssa"
 )
@@ -62,6 +62,9 @@ func (in *Interp) b64Encode(kind string, x *Str) *Str {
 		return lit(nativeB64(kind).EncodeToString([]byte(c)))
 	}
 	if kind == "RawURLEncoding" {
+		if x.Kind == sGhost && x.G.Ctor == "casevar" {
+			return ghostStr("b64case", x.G.Args[0].(*Str)) // re-encoding the bytes of a case variant gives that text back
+		}
 		return ghostStr("b64", x)
 	}
 	return ghostStr("b64x", x, kind)
@@ -95,6 +98,9 @@ func (in *Interp) b64Decode(kind string, s *Str) (*Str, bool) {
 		}
 		if s.G.Ctor == "b64alt" && kind == "RawURLEncoding" {
 			return s.G.Args[0].(*Str), true // non-canonical text, same bytes (the decoder ignores unused low bits)
+		}
+		if s.G.Ctor == "b64case" && kind == "RawURLEncoding" {
+			return ghostStr("casevar", s.G.Args[0].(*Str)), true // other bytes of the same length (prefix of 2 bytes kept)
 		}
 		if s.G.Ctor == "malformed" {
 			return nil, false
@@ -304,6 +310,11 @@ func init() {
 			return nil, false
 		}
 		g := buf.Ghost
+		if g.Kind == sGhost && g.G.Ctor == "casevar" {
+			if inner := g.G.Args[0].(*Str); inner.Kind == sGhost && inner.G.Ctor == "mh" {
+				return Tuple{in.strLen(g), buf, Iface{}}, true
+			}
+		}
 		if g.Kind != sGhost || g.G.Ctor != "mh" {
 			return Tuple{BVi(64, 0), &Slice{Nil: true}, in.mkErrorf("multihash: not a well-formed multihash (idealised)")}, true
 		}
@@ -315,12 +326,22 @@ func init() {
 			return nil, false
 		}
 		g := buf.Ghost
+		caseVar := false
+		if g.Kind == sGhost && g.G.Ctor == "casevar" {
+			// a multihash whose text had one letter's case changed behind the prefix: same code and length, other digest
+			if inner := g.G.Args[0].(*Str); inner.Kind == sGhost && inner.G.Ctor == "mh" {
+				g, caseVar = inner, true
+			}
+		}
 		if g.Kind != sGhost || g.G.Ctor != "mh" {
 			// any other opaque byte string: idealised as not being a well-formed multihash
 			return Tuple{(*value)(nil), in.mkErrorf("multihash: not a well-formed multihash (idealised)")}, true
 		}
 		code := g.G.Args[0].(*Term)
 		digest := g.G.Args[1].(*Str)
+		if caseVar {
+			digest = ghostStr("casedig", digest)
+		}
 		codes := (*in.globalVar(mhPkg, "Codes")).(*MapV)
 		name := value(emptyStr)
 		if e := in.mapFind(codes, code); e != nil {
